@@ -125,6 +125,10 @@ class G:
         nd = self.pick([0, 0, 1, 2, 3, 3, 6, 9])
         if nd == 0:
             return str(whole)
+        if self.chance(0.2):
+            # fractions at the edges: below a microsecond / millisecond, around one half, all nines
+            frac = self.pick([1, 500, 999, 1000, 999999, 1000000, 499999999, 500000000, 500000001, 999999999, 999999000, 100000000])
+            return ("%d.%09d" % (whole, frac)).rstrip("0") if self.chance(0.5) else "%d.%09d" % (whole, frac)
         frac = self.r.randrange(0, 10 ** nd)
         return "%d.%0*d" % (whole, nd, frac)
 
@@ -136,6 +140,13 @@ class G:
 
     def hexbytes(self, n):
         return bytes(self.r.randrange(256) for _ in range(n))
+
+    def iv(self):
+        """16 octets; edge cases: leading zero nibbles / octets, all zero, all ones, small numbers"""
+        if self.chance(0.35):
+            return self.pick([bytes(16), bytes(15) + b"\x01", b"\xff" * 16, bytes(8) + b"\xff" * 8, b"\x0f" + self.hexbytes(15),
+                              b"\x00" + self.hexbytes(15), (self.r.randrange(0, 1000)).to_bytes(16, "big"), b"\x80" + bytes(15)])
+        return self.hexbytes(16)
 
 
 # ---------------------------------------------------------------- keys
@@ -150,9 +161,13 @@ def gen_key(g, fmt_pool=KEYFORMATS, allow_sample=True):
     fmt = g.pick(fmt_pool)
     method = "AES-128" if (not allow_sample or g.chance(0.7)) else "SAMPLE-AES"
     k = {"method": method, "uri": g.pick(["k1", "https://k.example/key?id=7", "k,2=a", "schüssel"]) + str(g.small(5)),
-         "iv": g.hexbytes(16) if g.chance(0.4) else None, "format": fmt, "versions": None}
+         "iv": g.iv() if g.chance(0.4) else None, "format": fmt, "versions": None}
     if g.chance(0.25):
-        k["versions"] = [g.pick([1, 2, 3, 5, 255]) for _ in range(g.r.randint(1, 4))]
+        k["versions"] = [g.pick([1, 2, 3, 5, 255, 0]) for _ in range(g.r.randint(1, 4))]
+        if g.chance(0.1):
+            k["versions"] = [0] * g.r.randint(1, 9)
+        elif g.chance(0.1):
+            k["versions"] = [g.pick([1, 255, 0, 7]) for _ in range(9)]
     return k
 
 
@@ -253,7 +268,7 @@ def gen_media(g, nseg=None, feature_p=0.35, max_formats=3, with_keys=True):
                     evs.append(gen_key(g, fmts))
         s["map"] = None
         if g.chance(feature_p * 0.6):
-            rng = (g.small(10 ** 6), g.small(10 ** 6)) if g.chance(0.5) else None
+            rng = (g.small(10 ** 6), g.pick([g.small(10 ** 6), 0, None, None])) if g.chance(0.5) else None
             s["map"] = {"uri": g.uri(), "range": rng, "pos": g.r.randrange(len(evs) + 1)}
         s["keys_before"] = evs
         dur_cap = a["target"]
@@ -290,6 +305,13 @@ def gen_media(g, nseg=None, feature_p=0.35, max_formats=3, with_keys=True):
         unknown.append((n, "#EXT-X-TRAILER:1"))
     a["segs"] = segs
     a["unknown"] = unknown
+    # playlist-level tags may stand anywhere (RFC 8216 4.3.3): before which segment each one is written
+    # (None = in the header / ENDLIST at the very end)
+    a["late"] = {}
+    if n > 0 and g.chance(0.3):
+        for t in ("endlist", "ptype", "iframes", "indep", "start", "version_tag"):
+            if g.chance(0.5):
+                a["late"][t] = g.r.randrange(0, n + 1)
     # the library's independent-segments rule (known finding D17) — keep most cases clear of it
     a["d17"] = False
     if a["indep"]:
@@ -408,31 +430,41 @@ def seg_tag_lines(s, g):
 def map_line(m, g):
     attrs = [("URI", q(m["uri"]))]
     if m["range"] is not None:
-        attrs.append(("BYTERANGE", q("%d@%d" % m["range"])))
+        attrs.append(("BYTERANGE", q("%d@%d" % m["range"] if m["range"][1] is not None else "%d" % m["range"][0])))
     return "#EXT-X-MAP:" + render_attrs(attrs, g)
 
 
 def render_media(a, g=None):
     """g carries the style; None = plain canonical-ish style"""
     hdr = []
+    late = a.get("late", {})
+    later = {}
+
+    def put(tagname, line):
+        if tagname in late:
+            later.setdefault(late[tagname], []).append(line)
+        else:
+            hdr.append(line)
     hdr.append("#EXT-X-TARGETDURATION:%d" % a["target"])
     if a["mseq"] is not None:
         hdr.append("#EXT-X-MEDIA-SEQUENCE:%d" % a["mseq"])
     if a["ptype"] is not None:
-        hdr.append("#EXT-X-PLAYLIST-TYPE:" + a["ptype"])
+        put("ptype", "#EXT-X-PLAYLIST-TYPE:" + a["ptype"])
     if a["iframes"]:
-        hdr.append("#EXT-X-I-FRAMES-ONLY")
+        put("iframes", "#EXT-X-I-FRAMES-ONLY")
     if a["indep"]:
-        hdr.append("#EXT-X-INDEPENDENT-SEGMENTS")
+        put("indep", "#EXT-X-INDEPENDENT-SEGMENTS")
     if a["start"] is not None:
         attrs = [("TIME-OFFSET", a["start"][0])]
         if a["start"][1]:
             attrs.append(("PRECISE", "YES"))
         elif g is not None and g.chance(0.3):
             attrs.append(("PRECISE", "NO"))
-        hdr.append("#EXT-X-START:" + render_attrs(attrs, g))
+        put("start", "#EXT-X-START:" + render_attrs(attrs, g))
     if a["version_tag"] is not None:
-        hdr.append("#EXT-X-VERSION:%d" % a["version_tag"])
+        put("version_tag", "#EXT-X-VERSION:%d" % a["version_tag"])
+    if a["endlist"] and "endlist" in late:
+        later.setdefault(late["endlist"], []).append("#EXT-X-ENDLIST")
     if g is not None and g.style.get("hdr_perm"):
         g.r.shuffle(hdr)
     dseq = ["#EXT-X-DISCONTINUITY-SEQUENCE:%d" % a["dseq"]] if a["dseq"] is not None else []
@@ -444,13 +476,15 @@ def render_media(a, g=None):
     for pos, line in a["unknown"]:
         unk.setdefault(pos, []).append(line)
     for i, s in enumerate(a["segs"]):
+        body += later.get(i, [])
         for u in unk.get(i, []):
             body.append(u)
         body += seg_tag_lines(s, g)
         body.append(s["uri"])
+    body += later.get(len(a["segs"]), [])
     for u in unk.get(len(a["segs"]), []):
         body.append(u)
-    if a["endlist"]:
+    if a["endlist"] and "endlist" not in late:
         body.append("#EXT-X-ENDLIST")
     lines = ["#EXTM3U"] + hdr + body
     return style_lines(lines, g)
@@ -466,6 +500,10 @@ def style_lines(lines, g, protect_pairs=True):
         after_streaminf = protect_pairs and i > 0 and lines[i - 1].startswith("#EXT-X-STREAM-INF:")
         if g.style.get("blank") and not after_streaminf and i > 0 and g.chance(0.15):
             out.append(g.pick(["", "   ", "# a comment", "#comment, with = and \"quotes\"", "\t"]))
+        elif g.style.get("blank") and after_streaminf and g.chance(0.15):
+            # between EXT-X-STREAM-INF and its URI only blank lines are transparent (a comment would be the URI)
+            for _ in range(g.pick([1, 1, 2])):
+                out.append(g.pick(["", "   ", "\t"]))
         if g.style.get("linepad") and i > 0 and g.chance(0.2):
             l = g.pick(["", " ", "\t"]) + l + g.pick(["", " ", "  \t"])
         out.append(l)
@@ -501,7 +539,7 @@ def spec_media(a):
         m = "none"
         if s["map"] is not None:
             mk = [k for k in map_keys if k is not None]
-            mr = O(s["map"]["range"], lambda r: P("r", str(r[1]), str(r[1] + r[0])))
+            mr = O(s["map"]["range"], lambda r: P("r", str(r[1]), str(r[1] + r[0])) if r[1] is not None else P("r", "none", str(r[0])))
             m = P("map", P("uri", S(s["map"]["uri"])), P("range", mr),
                   P("keys", *[spec_key(k) for k in mk]), P("dlen", str(len(mk))),
                   P("dfirst", spec_key(mk[0]) if mk else "none"))
